@@ -170,6 +170,14 @@ def install (origin to : Addr) (funcSize : Nat) (tramp : Option (Addr × Nat × 
         | (s1, o) => (s1, .done o)
       else (s, .refused "trampoline-too-small")                        -- fix_origin_amd64.go:39 / :77
 
+/-- memory.go:30 `RawRead(a, n)`: a private copy of `n` bytes starting at `a` -/
+def readBytes (s : State) (a : Addr) (n : Nat) : List Byte :=
+  (List.range n).map (fun i => s.mem (a + BitVec.ofNat 64 i))
+
+/-- patch.go:123 + jumpdata.go:66: the bytes a guard saves are `RawRead(origin, len(jumpData))` — the jump's own length -/
+def savedOriginBytes (s : State) (origin to : Addr) : List Byte :=
+  readBytes s origin (Gen.Amd64.jmpToFunctionValue origin to).length
+
 /-- guard.go:36 `Unpatch`: `WriteTo(origin, originBytes)`; `originBytes` were read with the jump's length (jumpdata.go:66) -/
 def unpatch (origin : Addr) (originBytes : List Byte) (s : State) : State × Outcome :=
   writeTo origin originBytes s
